@@ -29,26 +29,49 @@ theorem firstSome_none {α β} (f : α → Option β) (l : List α) (h : firstSo
 
 variable {F : Type} [DecidableEq F]
 
-/-- acceptance ⇒ the challenge comparison succeeded and **every** statement's verifier accepted -/
-theorem verify_ok_checks (enc : ClaimData → F) (stmts : List Stmt) (p : Pres F) (ck : Checks)
-    (h : verify enc stmts p ck = .ok) :
-    ck.challengeOk = true ∧ ∀ s ∈ stmts, ck.stmtOk s.id = true := by
-  unfold verify at h
+/-- what a passed plan stage consists of -/
+theorem planStage_none (enc : ClaimData → F) (stmts : List Stmt) (p : Pres F)
+    (h : planStage enc stmts p = none) :
+    p.proofs.any (fun e => e.2.innerId != e.1) = false ∧
+    firstSome (planSig enc p) (stmts.filterMap fun | .sig s => some s | _ => none) = none ∧
+    firstSome (planPred stmts p) (stmts.filterMap fun | .pred q => some q | _ => none) = none := by
+  unfold planStage at h
   simp only at h
   split at h
   · cases h
-  · split at h
+  · rename_i hid
+    split at h
     · cases h
-    · split at h
+    · rename_i hsig
+      exact ⟨by simpa using hid, hsig, h⟩
+
+/-- acceptance ⇒ the plan stage passed, the challenge comparison succeeded and **every** statement's
+verifier accepted -/
+theorem verify_ok_checks (enc : ClaimData → F) (stmts : List Stmt) (p : Pres F) (ck : Checks)
+    (h : verify enc stmts p ck = .ok) :
+    planStage enc stmts p = none ∧ ck.challengeOk = true ∧ ∀ s ∈ stmts, ck.stmtOk s.id = true := by
+  unfold verify at h
+  split at h
+  · cases h
+  · rename_i hplan
+    split at h
+    · cases h
+    · rename_i hc
+      split at h
       · cases h
-      · rename_i hc
-        split at h
-        · cases h
-        · rename_i hf
-          refine ⟨by simpa using hc, ?_⟩
-          intro s hs
-          have := List.find?_eq_none.mp hf s hs
-          simpa using this
+      · rename_i hf
+        refine ⟨hplan, by simpa using hc, ?_⟩
+        intro s hs
+        have := List.find?_eq_none.mp hf s hs
+        simpa using this
+
+/-- acceptance ⇒ every proof of the presentation is stored under the statement id it carries -/
+theorem verify_ok_proofs_under_own_id (enc : ClaimData → F) (stmts : List Stmt) (p : Pres F) (ck : Checks)
+    (h : verify enc stmts p ck = .ok) : ∀ e ∈ p.proofs, e.2.innerId = e.1 := by
+  have h1 := (planStage_none enc stmts p (verify_ok_checks enc stmts p ck h).1).1
+  intro e he
+  have := List.any_eq_false.mp h1 e he
+  simpa using this
 
 /-- acceptance ⇒ every signature statement of the schema carries a proof of the *signature* variant
 whose inner map passed the disclosed-claims check against the reported claims (no statement is
@@ -58,71 +81,64 @@ theorem verify_ok_covers_signature_statements (enc : ClaimData → F) (stmts : L
     ∃ pr rep, p.proofs.lookup s.id = some pr ∧ pr.kind = .signature ∧
       p.disclosed.lookup s.id = some rep ∧ checkDisclosed enc s pr.inner rep = true ∧
       ck.stmtOk s.id = true := by
-  have hck := (verify_ok_checks enc stmts p ck h).2 (.sig s) hs
-  unfold verify at h
-  simp only at h
-  split at h
-  · cases h
-  · rename_i hsig
-    have hmem : s ∈ stmts.filterMap (fun | .sig s => some s | _ => none) := by
-      rw [List.mem_filterMap]; exact ⟨.sig s, hs, rfl⟩
-    have hp := firstSome_none _ _ hsig s hmem
-    unfold planSig at hp
+  obtain ⟨hplan, _, hall⟩ := verify_ok_checks enc stmts p ck h
+  have hck := hall (.sig s) hs
+  have hsig := (planStage_none enc stmts p hplan).2.1
+  have hmem : s ∈ stmts.filterMap (fun | .sig s => some s | _ => none) := by
+    rw [List.mem_filterMap]; exact ⟨.sig s, hs, rfl⟩
+  have hp := firstSome_none _ _ hsig s hmem
+  unfold planSig at hp
+  split at hp
+  · cases hp
+  · rename_i pr hpr
     split at hp
     · cases hp
-    · rename_i pr hpr
+    · rename_i hk
       split at hp
       · cases hp
-      · rename_i hk
+      · rename_i rep hrep
         split at hp
+        · rename_i hcd
+          exact ⟨pr, rep, hpr, by simpa using hk, hrep, hcd, hck⟩
         · cases hp
-        · rename_i rep hrep
-          split at hp
-          · rename_i hcd
-            exact ⟨pr, rep, hpr, by simpa using hk, hrep, hcd, hck⟩
-          · cases hp
 
 /-- acceptance ⇒ every predicate statement carries a proof of its own variant -/
 theorem verify_ok_covers_predicates (enc : ClaimData → F) (stmts : List Stmt) (p : Pres F)
     (ck : Checks) (h : verify enc stmts p ck = .ok) (q : PredStmt) (hq : Stmt.pred q ∈ stmts) :
     ∃ pr, p.proofs.lookup q.id = some pr ∧ pr.kind = q.kind ∧ ck.stmtOk q.id = true := by
-  have hck := (verify_ok_checks enc stmts p ck h).2 (.pred q) hq
-  unfold verify at h
-  simp only at h
-  split at h
-  · cases h
-  · split at h
-    · cases h
-    · rename_i hpred
-      have hmem : q ∈ stmts.filterMap (fun | .pred q => some q | _ => none) := by
-        rw [List.mem_filterMap]; exact ⟨.pred q, hq, rfl⟩
-      have hp := firstSome_none _ _ hpred q hmem
-      unfold planPred at hp
-      split at hp
-      · cases hp
-      · rename_i pr hpr
-        split at hp
-        · cases hp
-        · rename_i hk
-          exact ⟨pr, hpr, by simpa using hk, hck⟩
+  obtain ⟨hplan, _, hall⟩ := verify_ok_checks enc stmts p ck h
+  have hck := hall (.pred q) hq
+  have hpred := (planStage_none enc stmts p hplan).2.2
+  have hmem : q ∈ stmts.filterMap (fun | .pred q => some q | _ => none) := by
+    rw [List.mem_filterMap]; exact ⟨.pred q, hq, rfl⟩
+  have hp := firstSome_none _ _ hpred q hmem
+  unfold planPred at hp
+  split at hp
+  · cases hp
+  · rename_i pr hpr
+    split at hp
+    · cases hp
+    · rename_i hk
+      exact ⟨pr, hpr, by simpa using hk, hck⟩
 
 /-- the pinned dispatch skipped a signature statement whose id carried another variant (finding F01):
 in the repaired model such an object is rejected at the plan stage, for every schema containing the
-statement first, every other content and every outcome of the cryptographic checks -/
-theorem other_variant_rejected (enc : ClaimData → F) (s : SigStmt) (rest : List Stmt) (p : Pres F)
-    (ck : Checks) (pr : ProofM F) (hp : p.proofs.lookup s.id = some pr) (hk : pr.kind ≠ .signature) :
-    verify enc (.sig s :: rest) p ck = .errPlan "proof of another type under a signature statement" := by
-  unfold verify
-  simp only [List.filterMap_cons, firstSome, planSig, hp]
-  have : (pr.kind != Kind.signature) = true := by simpa using hk
-  simp [this]
+statement, every other content and every outcome of the cryptographic checks -/
+theorem other_variant_rejected (enc : ClaimData → F) (stmts : List Stmt) (s : SigStmt) (hs : Stmt.sig s ∈ stmts)
+    (p : Pres F) (ck : Checks) (pr : ProofM F) (hp : p.proofs.lookup s.id = some pr) (hk : pr.kind ≠ .signature) :
+    verify enc stmts p ck ≠ .ok := by
+  intro h
+  obtain ⟨pr', _, h1, h2, _⟩ := verify_ok_covers_signature_statements enc stmts p ck h s hs
+  rw [hp] at h1; cases h1
+  exact hk h2
 
 /-- a missing proof is rejected likewise -/
-theorem missing_proof_rejected (enc : ClaimData → F) (s : SigStmt) (rest : List Stmt) (p : Pres F)
-    (ck : Checks) (hp : p.proofs.lookup s.id = none) :
-    verify enc (.sig s :: rest) p ck = .errPlan "signature proof missing" := by
-  unfold verify
-  simp [List.filterMap_cons, firstSome, planSig, hp]
+theorem missing_proof_rejected (enc : ClaimData → F) (stmts : List Stmt) (s : SigStmt) (hs : Stmt.sig s ∈ stmts)
+    (p : Pres F) (ck : Checks) (hp : p.proofs.lookup s.id = none) :
+    verify enc stmts p ck ≠ .ok := by
+  intro h
+  obtain ⟨pr', _, h1, _⟩ := verify_ok_covers_signature_statements enc stmts p ck h s hs
+  rw [hp] at h1; cases h1
 
 /-! The cryptographic content of `ck.stmtOk s.id` for a signature statement is `bbsVerify` / `psVerify`
 (Model/Sigma.lean); `C17.bbsVerify_length`, `C17.bbs_pok_sound`, `C17.bbs_extracted_is_signature`,
